@@ -218,17 +218,30 @@ func runMatch(in mInput) string {
 
 // ---------------------------------------------------------------- oracle (from the property text; clean inputs only)
 
-func asciiLower(s string) (string, bool) {
-	b := []byte(s)
-	for i, c := range b {
-		if c >= 0x80 {
-			return "", false
-		}
-		if c >= 'A' && c <= 'Z' {
-			b[i] = c + 32
+// oracleLower: the lower case of a rule token as the rule language defines it (DESIGN: keywords are compared
+// after Go's strings.ToLower). For the comparison with the ASCII keywords only this much of ToLower matters:
+// A-Z -> a-z, and the two non-ASCII characters whose lower case is an ASCII letter, U+0130 -> i and
+// U+212A -> k (checked over all runes); any other non-ASCII byte keeps the token different from every keyword.
+// Written without strings.ToLower / EqualFold on purpose.
+func oracleLower(s string) string {
+	var sb strings.Builder
+	for i := 0; i < len(s); {
+		switch {
+		case strings.HasPrefix(s[i:], "\u0130"):
+			sb.WriteByte('i')
+			i += 2
+		case strings.HasPrefix(s[i:], "\u212a"):
+			sb.WriteByte('k')
+			i += 3
+		case s[i] >= 'A' && s[i] <= 'Z':
+			sb.WriteByte(s[i] + 32)
+			i++
+		default:
+			sb.WriteByte(s[i])
+			i++
 		}
 	}
-	return string(b), true
+	return sb.String()
 }
 
 type oRule struct {
@@ -236,30 +249,15 @@ type oRule struct {
 	pattern, sp, dp, dt, dst string
 }
 
-// oracleParse: the ten rule formats; ok=false: not a rule; sure=false: contains non-ASCII keyword candidates (no claim)
+// oracleParse: the ten rule formats; ok=false: not a rule (a token that is not a keyword => malformed rule).
+// sure is always true since the lower-casing above is total (kept for the callers).
 func oracleParse(r []string) (o oRule, ok bool, sure bool) {
 	low := make([]string, len(r))
 	for i, t := range r {
-		l, ascii := asciiLower(t)
-		if !ascii {
-			// a non-ASCII token at a keyword position: no claim about Unicode case folding
-			l = "\x00nonascii"
-		}
-		low[i] = l
-	}
-	nonASCIIKeyword := func(idx ...int) bool {
-		for _, i := range idx {
-			if i < len(low) && low[i] == "\x00nonascii" {
-				return true
-			}
-		}
-		return false
+		low[i] = oracleLower(t)
 	}
 	if len(r) == 0 {
 		return o, false, true
-	}
-	if nonASCIIKeyword(0) {
-		return o, false, false
 	}
 	switch low[0] {
 	case "create", "modify", "delete", "allow", "disallow", "require":
@@ -271,18 +269,12 @@ func oracleParse(r []string) (o oRule, ok bool, sure bool) {
 		var t string
 		switch {
 		case len(r) == 6:
-			if nonASCIIKeyword(2, 3, 4) {
-				return o, false, false
-			}
 			if low[2] != "with" || low[4] != "from" {
 				return o, false, true
 			}
 			o = oRule{kind: "match", pattern: r[1], dst: r[5]}
 			t = low[3]
 		case len(r) == 8:
-			if nonASCIIKeyword(2, 3, 4, 5, 6) {
-				return o, false, false
-			}
 			if low[2] == "in" && low[4] == "with" && low[6] == "from" {
 				o = oRule{kind: "match", pattern: r[1], sp: r[3], dst: r[7]}
 				t = low[5]
@@ -293,9 +285,6 @@ func oracleParse(r []string) (o oRule, ok bool, sure bool) {
 				return o, false, true
 			}
 		case len(r) == 10:
-			if nonASCIIKeyword(2, 4, 5, 6, 8) {
-				return o, false, false
-			}
 			if low[2] != "in" || low[4] != "with" || low[6] != "in" || low[8] != "from" {
 				return o, false, true
 			}
@@ -446,6 +435,60 @@ func cleanPath(p string) bool {
 	return true
 }
 
+// okPath: a path the oracle makes claims about: clean relative, or "/" followed by a clean relative path
+// (absolute paths are outside the hypotheses of C03_model_eq_spec; the oracle and the model cover them)
+func okPath(p string) bool {
+	return isASCII(p) && (cleanPath(p) || (strings.HasPrefix(p, "/") && cleanPath(p[1:])))
+}
+
+// oraclePrefix: the directory a MATCH prefix denotes: "" (no prefix), "/" (the root), or an okPath.
+// "." segments, repeated and trailing slashes are dropped and "x/.." cancels; no claim (ok=false) for
+// prefixes that denote the current directory or climb out ("." , "..", "/..").
+func oraclePrefix(raw string) (norm string, ok bool) {
+	if raw == "" {
+		return "", true
+	}
+	if !isASCII(raw) {
+		return "", false
+	}
+	var st []string
+	for _, seg := range strings.Split(raw, "/") {
+		switch seg {
+		case "", ".":
+		case "..":
+			if len(st) == 0 {
+				return "", false
+			}
+			st = st[:len(st)-1]
+		default:
+			st = append(st, seg)
+		}
+	}
+	if raw[0] == '/' {
+		return "/" + strings.Join(st, "/"), true
+	}
+	if len(st) == 0 {
+		return "", false
+	}
+	return strings.Join(st, "/"), true
+}
+
+// oracleUnder: a lies under the directory p (normalised); base = the path of a relative to p
+func oracleUnder(p, a string) (base string, under bool) {
+	switch {
+	case p == "":
+		return a, true
+	case p == "/":
+		if strings.HasPrefix(a, "/") && len(a) > 1 {
+			return a[1:], true
+		}
+		return "", false
+	case strings.HasPrefix(a, p+"/") && len(a) > len(p)+1:
+		return a[len(p)+1:], true
+	}
+	return "", false
+}
+
 func hashEqual(a, b hashObj) bool {
 	if len(a) != len(b) {
 		return false
@@ -463,30 +506,33 @@ type oStats struct {
 	end         string
 }
 
-// oracleMatch: the artifacts of the queue consumed by a MATCH rule (clean inputs)
-func oracleMatch(r oRule, g []gitem, src arts, queue map[string]bool, meta map[string]linkIn) []string {
-	var out []string
+// oracleMatch: the artifacts of the queue consumed by a MATCH rule (r.sp / r.dp already normalised by
+// oraclePrefix). sure=false: an absolute base name below a destination prefix (no claim).
+func oracleMatch(r oRule, g []gitem, src arts, queue map[string]bool, meta map[string]linkIn) (out []string, sure bool) {
 	dl, ok := meta[r.dst]
 	if !ok {
-		return nil
+		return nil, true
 	}
 	dstArts := dl.Products
 	if r.dt == "materials" {
 		dstArts = dl.Materials
 	}
 	for a := range queue {
-		base := a
-		if r.sp != "" {
-			if !strings.HasPrefix(a, r.sp+"/") {
-				continue // not under the source prefix
-			}
-			base = a[len(r.sp)+1:]
+		base, under := oracleUnder(r.sp, a)
+		if !under {
+			continue // not located under the source prefix
 		}
 		if !gden(g, base) {
 			continue
 		}
 		dname := base
-		if r.dp != "" {
+		switch {
+		case r.dp == "":
+		case strings.HasPrefix(base, "/"):
+			return nil, false
+		case r.dp == "/":
+			dname = "/" + base
+		default:
 			dname = r.dp + "/" + base
 		}
 		dh, ok := dstArts[dname]
@@ -499,7 +545,7 @@ func oracleMatch(r oRule, g []gitem, src arts, queue map[string]bool, meta map[s
 		}
 		out = append(out, a)
 	}
-	return out
+	return out, true
 }
 
 // oracleVerify returns "" when the input is outside the oracle's domain (unclean paths, patterns
@@ -527,7 +573,7 @@ func oracleVerify(in vInput) (verdict string, st oStats, queues [2][]string) {
 	for _, l := range in.Meta {
 		for _, a := range []arts{l.Materials, l.Products} {
 			for k := range a {
-				if !cleanPath(k) || !isASCII(k) {
+				if !okPath(k) {
 					return "", st, queues
 				}
 			}
@@ -554,7 +600,7 @@ func oracleVerify(in vInput) (verdict string, st oStats, queues [2][]string) {
 				}
 				var g []gitem
 				if o.kind != "require" {
-					if !cleanPath(o.pattern) {
+					if !okPath(o.pattern) {
 						return "", st, queues
 					}
 					var gok bool
@@ -563,7 +609,10 @@ func oracleVerify(in vInput) (verdict string, st oStats, queues [2][]string) {
 						return "", st, queues
 					}
 				}
-				if (o.sp != "" && !cleanPath(o.sp)) || (o.dp != "" && !cleanPath(o.dp)) || !isASCII(o.sp) || !isASCII(o.dp) {
+				var pok1, pok2 bool
+				o.sp, pok1 = oraclePrefix(o.sp)
+				o.dp, pok2 = oraclePrefix(o.dp)
+				if !pok1 || !pok2 {
 					return "", st, queues
 				}
 				parsed[strings.Join(r, "\x00")+"\x01"+strconv.Itoa(len(r))] = prule{r: o, g: g, ok: true}
@@ -632,7 +681,11 @@ func oracleVerify(in vInput) (verdict string, st oStats, queues [2][]string) {
 						return "ERR", st, queues
 					}
 				case "match":
-					consumed = oracleMatch(r, pr.g, src, queue, in.Meta)
+					var msure bool
+					consumed, msure = oracleMatch(r, pr.g, src, queue, in.Meta)
+					if !msure {
+						return "", oStats{}, [2][]string{}
+					}
 				}
 				if len(consumed) > 0 {
 					st.consumedAny = true
@@ -668,7 +721,7 @@ func oracleUnpack(rule []string) string {
 
 // plainPath: usable as a literal DISALLOW pattern
 func plainPath(p string) bool {
-	return cleanPath(p) && isASCII(p) && !strings.ContainsAny(p, "*?[\\")
+	return okPath(p) && !strings.ContainsAny(p, "*?[\\")
 }
 
 // observe: verdict plus, when accepted, the queue of the first item after its material rules and after
@@ -1062,20 +1115,23 @@ func plantPartners(r *lib.Rng, in *vInput) {
 				if !gok || !exists {
 					continue
 				}
+				sp, ok1 := oraclePrefix(o.sp)
+				dp, ok2 := oraclePrefix(o.dp)
+				if !ok1 || !ok2 {
+					continue
+				}
 				for _, a := range lib.SortedKeys(src) {
-					base := a
-					if o.sp != "" {
-						if !strings.HasPrefix(a, o.sp+"/") {
-							continue
-						}
-						base = a[len(o.sp)+1:]
-					}
-					if !gden(g, base) || !r.Chance(2, 3) {
+					base, under := oracleUnder(sp, a)
+					if !under || !gden(g, base) || !r.Chance(2, 3) {
 						continue
 					}
 					dname := base
-					if o.dp != "" {
-						dname = o.dp + "/" + base
+					switch {
+					case dp == "":
+					case dp == "/":
+						dname = "/" + strings.TrimPrefix(base, "/")
+					default:
+						dname = dp + "/" + strings.TrimPrefix(base, "/")
 					}
 					h := copyHash(src[a])
 					if r.Chance(1, 6) {
@@ -1359,21 +1415,26 @@ func oracleM(in mInput) string {
 			return ""
 		}
 	}
-	if !cleanPath(rd["pattern"]) || (rd["srcPrefix"] != "" && !cleanPath(rd["srcPrefix"])) || (rd["dstPrefix"] != "" && !cleanPath(rd["dstPrefix"])) {
+	sp, ok1 := oraclePrefix(rd["srcPrefix"])
+	dp, ok2 := oraclePrefix(rd["dstPrefix"])
+	if !okPath(rd["pattern"]) || !ok1 || !ok2 {
 		return ""
 	}
 	if rd["dstType"] != "materials" && rd["dstType"] != "products" {
 		return ""
 	}
 	g, ok := gparse(rd["pattern"])
-	if !ok || !isASCII(rd["srcPrefix"]) || !isASCII(rd["dstPrefix"]) {
+	if !ok {
 		return ""
 	}
 	q := map[string]bool{}
 	for _, x := range in.Queue {
 		q[x] = true
 	}
-	c := oracleMatch(oRule{kind: "match", pattern: rd["pattern"], sp: rd["srcPrefix"], dp: rd["dstPrefix"], dt: rd["dstType"], dst: rd["dstName"]}, g, in.Src, q, in.Meta)
+	c, sure := oracleMatch(oRule{kind: "match", pattern: rd["pattern"], sp: sp, dp: dp, dt: rd["dstType"], dst: rd["dstName"]}, g, in.Src, q, in.Meta)
+	if !sure {
+		return ""
+	}
 	l := mapS(c, hx)
 	sort.Strings(l)
 	return strings.TrimSpace(strconv.Itoa(len(l)) + " " + strings.Join(l, " "))
@@ -1666,9 +1727,25 @@ func runStream(drv string, n int, out string) {
 			rp.Nontrivial++
 		}
 	}
+	// 2b. UnpackRule on every keyword/token variant (one letter replaced by a Unicode fold-equivalent or look-alike)
+	variants := allKwVariants()
+	for _, v := range variants {
+		impl := runUnpack(v.Rule)
+		orc := oracleUnpack(v.Rule)
+		k := "UnpackRule-kwvariant/" + strings.Fields(impl)[0]
+		rp.Distribution[k]++
+		rr := v.Rule
+		rp.add("kwvariant-"+strings.SplitN(v.Label, "/", 2)[0], anyCase{Kind: "U", Rule: &rr}, impl, d.ask("U "+encRule(v.Rule)), orc)
+		rp.Nontrivial++
+	}
 	// 3. verifyMatchRule through the hook
 	for i := 0; i < n; i++ {
-		in := genMCase(r.Fork())
+		var in mInput
+		if i%5 == 4 {
+			in = genRootedM(r.Fork())
+		} else {
+			in = genMCase(r.Fork())
+		}
 		impl := runMatch(in)
 		orc := oracleM(in)
 		k := "verifyMatchRule"
@@ -1688,9 +1765,14 @@ func runStream(drv string, n int, out string) {
 	for i := 0; i < n; i++ {
 		var in vInput
 		var base string
-		if i%10 == 9 {
+		switch {
+		case i%10 == 6:
+			in, base = genTargeted3(r.Fork(), i/10)
+		case i%10 == 9:
 			in, base = genTargeted(r.Fork(), i/10)
-		} else {
+		case i%10 == 8 || i%10 == 7:
+			in, base = genRootedV(r.Fork())
+		default:
 			in, base = genVCase(r.Fork())
 		}
 		k, orc, _ := classify(in, base)
@@ -1720,6 +1802,20 @@ func runStream(drv string, n int, out string) {
 			rp.Nontrivial++
 		}
 	}
+	// 4b. VerifyArtifacts on every keyword/token variant: artifacts the intended rule would reject or consume
+	for _, v := range variants {
+		in, base := kwVariantCase(v, r.Fork())
+		k, orc, _ := classify(in, base)
+		impl := observe(runVerify, in)
+		model := noModel
+		if d != nil {
+			model = observe(func(x vInput) string { v, _ := d.verify(x); return v }, in)
+		}
+		rp.Distribution[k]++
+		ii := in
+		rp.add(k, anyCase{Kind: "Vq", V: &ii}, impl, model, orc)
+		rp.Nontrivial++
+	}
 	rp.Distribution["VerifyArtifacts-cases-inside-theorem-hypotheses(wf)"] = inDomain
 	rp.write(out)
 }
@@ -1742,9 +1838,17 @@ func main() {
 		for i := 0; i < n; i++ {
 			var in vInput
 			var base string
-			if i < 8 || i%10 == 9 {
+			switch {
+			case i >= 8 && i < 16 || i%10 == 6:
+				in, base = genTargeted3(r.Fork(), i)
+			case i < 8 || i%10 == 9:
 				in, base = genTargeted(r.Fork(), i)
-			} else {
+			case i%10 == 8:
+				in, base = genRootedV(r.Fork())
+			case i%10 == 7:
+				vs := allKwVariants()
+				in, base = kwVariantCase(vs[r.Intn(len(vs))], r.Fork())
+			default:
 				in, base = genVCase(r.Fork())
 			}
 			orc, st, _ := oracleVerify(in)
